@@ -122,6 +122,14 @@ edit('syntax/lexer.go', lambda s: s.replace('\t\tif left > 0 {\n\t\t\tp.bs = p.r
 edit('syntax/lexer.go', lambda s: s.replace('p.bs[p.bsp-uint(p.w):p.bsp]...)','p.bs[p.bsp-uint(int(p.w)):p.bsp]...)'))
 edit('syntax/parser.go', lambda s: s.replace('\tw := p.getWord()\n\tif op == OtherParamOps && w != nil && w.Lit() == "" {','\toperand := p.getWord()\n\tw := operand\n\tif w != nil && op == OtherParamOps && "" == w.Lit() {'))
 edit('syntax/parser.go', lambda s: s.replace('\tcc.Name = p.getWord()\n\tcc.Stmt = p.gotStmtPipe(&Stmt{Position: p.pos}, false)\n\tif cc.Stmt == nil {','\tcc.Name = p.getWord()\n\tinner := &Stmt{Position: p.pos}\n\tcc.Stmt = p.gotStmtPipe(inner, false)\n\tif cc.Stmt == nil {'))
+# eighth batch: refactors around the late round-5 rules
+edit('expand/expand.go', lambda s: s.replace('\t\t\tpart := internal.UnescapePattern(part)\n','\t\t\tescaped := part\n\t\t\tpart := internal.UnescapePattern(escaped)\n'))
+edit('internal/pattern.go', lambda s: s.replace('\tprefix, suffix = UnescapePattern(prefix), UnescapePattern(suffix)\n','\tprefix = UnescapePattern(prefix)\n\tsuffix = UnescapePattern(suffix)\n'))
+edit('pattern/pattern.go', lambda s: s.replace("\t\t\t\tdefault:\n\t\t\t\t\tif filenames && c == '/' {\n\t\t\t\t\t\thasSlash = true\n\t\t\t\t\t}\n\t\t\t\t\tbsb.WriteString(regexp.QuoteMeta(string(c)))","\t\t\t\tdefault:\n\t\t\t\t\tif '/' == c && filenames {\n\t\t\t\t\t\thasSlash = true\n\t\t\t\t\t}\n\t\t\t\t\tbsb.WriteString(regexp.QuoteMeta(string(c)))"))
+edit('syntax/printer.go', lambda s: s.replace('\t\tif r.Pos().After(pos) || r.Op == Hdoc || r.Op == DashHdoc {','\t\tif r.Op == DashHdoc || r.Op == Hdoc || r.Pos().After(pos) {'))
+edit('syntax/printer.go', lambda s: s.replace('\t\tif r.Op == DashHdoc && p.indentSpaces == 0 && !p.minify {','\t\tif !p.minify && p.indentSpaces == 0 && r.Op == DashHdoc {'))
+edit('interp/api.go', lambda s: s.replace('\tif e.returning || e.exiting || e.fatalExit {\n\t\treturn\n\t}\n\te.code = 0','\tif e.fatalExit || e.returning || e.exiting {\n\t\treturn\n\t}\n\te.code = 0'))
+edit('syntax/simplify.go', lambda s: renameIn(s,'func (s *simplifier) removeParensTest(','par','inner'))
 PY
 GOFLAGS=-mod=mod GOPROXY=off go build ./...
 cd /verif
